@@ -15,3 +15,5 @@ package cidset
 //@ func DecodeCidSet
 //@   lenient
 //@   modifies alloc
+//@   -- no payload at all is an error like any other undecodable payload
+//@   ensures data == nil ==> result1 != nil
